@@ -1000,7 +1000,7 @@ func (c *Ctx) entryReachCut(r *Report, cut func(*FuncInfo) bool, entries ...stri
 // reading the value through Int() (directly or after Convert to a signed type) loses values ≥ 2^63
 // (and Int() on an unsigned Value panics); symmetrically Uint() in arms covering signed kinds.
 func ruleReflectSign(c *Ctx, r *Report, fs []*FuncInfo, floor int) {
-	r.Rule("R-REFLECT-SIGN", "in a reflect kind dispatch an arm that covers unsigned kinds never reads the value with Int()/Convert(<signed>) and an arm that covers signed kinds never reads it with Uint()/Convert(<unsigned>): uint64 values ≥ 2^63 and negative values must keep their magnitude", floor)
+	r.Rule("R-REFLECT-SIGN", "in a reflect kind dispatch an arm that covers unsigned kinds never reads the value with Int()/Convert(<signed>) and an arm that covers signed kinds never reads it with Uint()/Convert(<unsigned>), and the text of a number is parsed with the strconv parser of the arm's signedness: uint64 values ≥ 2^63 and negative values must keep their magnitude", floor)
 	unsigned := map[string]bool{"reflect.Uint": true, "reflect.Uint8": true, "reflect.Uint16": true, "reflect.Uint32": true, "reflect.Uint64": true, "reflect.Uintptr": true}
 	signed := map[string]bool{"reflect.Int": true, "reflect.Int8": true, "reflect.Int16": true, "reflect.Int32": true, "reflect.Int64": true}
 	for _, f := range fs {
@@ -1025,6 +1025,7 @@ func ruleReflectSign(c *Ctx, r *Report, fs []*FuncInfo, floor int) {
 				key := fmt.Sprintf("%s:kind-switch#%d:arm#%d(%s)", f.Name, ti+1, ai+1, strings.Join(a.Keys, ","))
 				bad := ""
 				var badPos token.Pos
+				var parseInt, parseUint *ast.CallExpr
 				ast.Inspect(a.Node, func(n ast.Node) bool {
 					call, ok := n.(*ast.CallExpr)
 					if !ok {
@@ -1032,6 +1033,10 @@ func ruleReflectSign(c *Ctx, r *Report, fs []*FuncInfo, floor int) {
 					}
 					fn := FullName(Callee(info, call))
 					switch fn {
+					case "strconv.ParseInt":
+						parseInt = call
+					case "strconv.ParseUint":
+						parseUint = call
 					case "reflect.Value.Int":
 						if hasU {
 							bad, badPos = "reads an unsigned value with Int()", call.Pos()
@@ -1054,6 +1059,14 @@ func ruleReflectSign(c *Ctx, r *Report, fs []*FuncInfo, floor int) {
 					}
 					return true
 				})
+				// the text of a number is parsed with the parser of the arm's signedness: ParseInt
+				// rejects [2^63, 2^64), ParseUint rejects every negative number.
+				if bad == "" && hasU && parseInt != nil && parseUint == nil {
+					bad, badPos = "parses the text of an unsigned value with strconv.ParseInt (values in [2^63, 2^64) are rejected)", parseInt.Pos()
+				}
+				if bad == "" && hasS && parseUint != nil && parseInt == nil {
+					bad, badPos = "parses the text of a signed value with strconv.ParseUint (negative values are rejected)", parseUint.Pos()
+				}
 				pos := a.Node.Pos()
 				if bad != "" {
 					pos = badPos
